@@ -130,7 +130,7 @@ Definition prop_brpos (input obs : val) : val :=
 
 (* ---- kind inspect ------------------------------------------------------------------------
    input: (opts file hok-table hdr-table validate how)    [how: free-form tag of the generator]
-   observation: (inspect-part scan-part index-part)
+   observation: (inspect-part scan-part index-part trusted-scan-part)
      inspect-part: (tnewerr e) | (tinsperr e) | (tok stats...)
      scan-part:    what NewBlockReader + Next* (hash-verifying, same limits) did on the same bytes
      index-part:   (tnone) | (tidx code) | (tidxerr e)   -- index.ReadCodec at IndexOffset *)
@@ -157,8 +157,15 @@ Definition run_inspect (input : val) : val :=
     | Err e => VL [VT "openerr"; v_err e]
     | Ok (v, roots, s) => VL [VT "ok"; VN v; v_cids roots; v_scan s]
     end in
+  (* 4th part (validate = false only): the non-verifying (TrustedCAR) scan *)
+  let tscan :=
+    if validate then VL [VT "none"]
+    else match br_read_all hok hdr (mkropts (o_zeof o) (o_maxh o) (o_maxs o) true) file with
+         | Err e => VL [VT "openerr"; v_err e]
+         | Ok (v, roots, s) => VL [VT "ok"; VN v; v_cids roots; v_scan s]
+         end in
   match new_reader hdr o file with
-  | Err e => VL [VL [VT "newerr"; v_err e]; scan; VL [VT "none"]]
+  | Err e => VL [VL [VT "newerr"; v_err e]; scan; VL [VT "none"]; tscan]
   | Ok rd =>
     VL [match inspect hok hdr o rd file validate with
         | Err e => VL [VT "insperr"; v_err e]
@@ -170,7 +177,8 @@ Definition run_inspect (input : val) : val :=
           | Ok code => VL [VT "idx"; VN code]
           | Err e => VL [VT "idxerr"; v_err e]
           end
-        else VL [VT "none"]]
+        else VL [VT "none"];
+        tscan]
   end.
 
 Fixpoint val_eqb (fuel : nat) (a b : val) : bool :=
@@ -211,7 +219,36 @@ Definition prop_inspect (input obs : val) : val :=
   let insp := vnth 0 obs in
   let scan := vnth 1 obs in
   let idx := vnth 2 obs in
-  if negb validate || is_tag (vnth 0 insp) "newerr" then VT "ok"
+  if is_tag (vnth 0 insp) "newerr" then VT "ok"
+  else if negb validate then
+    (* Inspect(false) against the real TrustedCAR scan: a clean scan (and readable codec) must be
+       accepted with exactly its statistics; anything else it accepts must be the cut-last-block
+       shape: the scan got going, failed, and Inspect counted one block more *)
+    let tscan := vnth 3 obs in
+    let insp_ok := is_tag (vnth 0 insp) "ok" in
+    let t_open := is_tag (vnth 0 tscan) "ok" in
+    let t_clean := t_open && is_tag (vnth 1 (vnth 3 tscan)) "eof" in
+    let idx_ok := negb (is_tag (vnth 0 idx) "idxerr") in
+    let blocks := vblocks (vnth 0 (vnth 3 tscan)) in
+    if t_clean && idx_ok && negb insp_ok then VL [VT "FAIL"; VT "quick-scan-succeeds-inspect-fails"]
+    else if insp_ok && negb idx_ok then VL [VT "FAIL"; VT "inspect-succeeds-index-codec-unreadable"]
+    else if insp_ok && t_clean then
+      let version := vN (vnth 1 tscan) in
+      let hdrv := if version =? 2
+                  then match read_v2hdr (drop 11 (vB (vnth 1 input))) with
+                       | Ok (h, _) => h
+                       | Err _ => zero_v2hdr
+                       end
+                  else zero_v2hdr in
+      let codec := if is_tag (vnth 0 idx) "idx" then vN (vnth 1 idx) else 0 in
+      match first_diff stat_names (tl (vL insp)) (v_stats (stats_of version hdrv (vcids (vnth 2 tscan)) blocks codec)) with
+      | None => VT "ok"
+      | Some nm => VL [VT "FAIL"; VT "quick-stats-differ"; VT nm]
+      end
+    else if insp_ok then
+      if t_open && is_tag (vnth 1 (vnth 3 tscan)) "other" && (vN (vnth 5 insp) =? N.of_nat (length blocks) + 1)
+      then VT "ok" else VL [VT "FAIL"; VT "quick-inspect-accepts-more-than-a-cut-last-block"]
+    else VT "ok"
   else
     let insp_ok := is_tag (vnth 0 insp) "ok" in
     let scan_ok := is_tag (vnth 0 scan) "ok" && is_tag (vnth 1 (vnth 3 scan)) "eof" in
